@@ -127,13 +127,15 @@ int main() {
     manip M[] = {
       [](std::ostream &o) {}, [](std::ostream &o) { o << std::showpos; }, [](std::ostream &o) { o << std::setw(12); }, [](std::ostream &o) { o << std::setw(12) << std::left; },
       [](std::ostream &o) { o << std::setw(12) << std::internal << std::setfill('0'); }, [](std::ostream &o) { o << std::setw(12) << std::setfill('*') << std::showpos; },
-      [](std::ostream &o) { o << std::setw(3) << std::right; }, [](std::ostream &o) { o << std::setw(12) << std::internal << std::showpos << std::setfill('_'); } };
+      [](std::ostream &o) { o << std::setw(3) << std::right; }, [](std::ostream &o) { o << std::setw(12) << std::internal << std::showpos << std::setfill('_'); },
+      [](std::ostream &o) { o << std::setw(12) << std::left << std::setfill('*'); }, [](std::ostream &o) { o << std::setw(12) << std::internal << std::setfill('*'); },
+      [](std::ostream &o) { o << std::setw(25) << std::left << std::setfill('#') << std::showpos; }, [](std::ostream &o) { o << std::setw(1) << std::left << std::setfill('*'); } };
     for (unsigned m = 0; m < sizeof M / sizeof M[0]; m++) {
       std::ostringstream a, b; M[m](a); M[m](b); a << z; b << v;
       CHECK("ostream_dec", a.str() == b.str());
       // hex/oct of an mpz are SIGNED by design (manual, "C++ Formatted Output"): showpos applies there, unlike long; and showbase on zero gives 0x0.
       // Compare with the long only where both conventions coincide.
-      bool uses_showpos = (m == 1 || m == 5 || m == 7);
+      bool uses_showpos = (m == 1 || m == 5 || m == 7 || m == 10);
       if (v > 0 && !uses_showpos) {
         std::ostringstream ah, bh; M[m](ah); M[m](bh); ah << std::hex << std::showbase << z; bh << std::hex << std::showbase << v; CHECK("ostream_hex_showbase", ah.str() == bh.str());
         std::ostringstream ao, bo; M[m](ao); M[m](bo); ao << std::oct << z; bo << std::oct << v; CHECK("ostream_oct", ao.str() == bo.str());
@@ -187,6 +189,23 @@ int main() {
       mpf_clear(cx); mpf_clear(cy); mpf_clear(cr);
     }
     mpz_clear(c); mpq_clear(cq); mpf_clear(cf);
+  }
+  // integer extraction against the C++ library's own extraction of a long from the same text, in every basefield setting: value, fail
+  // state and the character the stream stops at (a digit that does not belong to the base ends the number)
+  { static const char *IT[] = {"128", "0128", "08", "17", "-017", "12a", "+7", "  5", "0", "-0", "9", "0778", "-128 4", "1238/7", "77", "0x1fg", "0X1F", "ff", "10 ", "-9x"};
+    typedef std::ios_base::fmtflags ff;
+    ff bases[] = {std::ios::dec, std::ios::oct, std::ios::hex, ff(0)};
+    for (const char *t : IT) for (ff bf : bases) {
+      // (a "0x" prefix under ios::hex: the standard library accepts it the way strtol does, the classes read plain hex digits the way
+      // mpz_set_str (.., 16) does - outside the comparison; with a cleared basefield both take the prefix)
+      if (bf == std::ios::hex && t[0] == '0' && (t[1] == 'x' || t[1] == 'X')) continue;
+      std::istringstream a(std::string(t) + "~"), b(std::string(t) + "~");
+      a.setf(bf, std::ios::basefield); b.setf(bf, std::ios::basefield);
+      mpz_class z(777); long l = 777; a >> z; b >> l;
+      bool fa = a.fail(), fb = b.fail();
+      CHECK("istream_mpz_vs_long_failbit", fa == fb);
+      if (!fa && !fb) { CHECK("istream_mpz_vs_long_value", z == l); a.clear(); b.clear(); CHECK("istream_mpz_vs_long_stop_position", a.peek() == b.peek()); }
+    }
   }
   // basefield combinations: the standard library treats anything but exactly oct or exactly hex as decimal; the classes must do the same
   { typedef std::ios_base::fmtflags ff; const ff D = std::ios::dec, O = std::ios::oct, H = std::ios::hex;
